@@ -312,16 +312,17 @@ Proof.
   destruct l; eexists; eexists; (split; [reflexivity | constructor]).
 Qed.
 
-(* a nil pointer at the end of any chain is null, except the typed nil pointer to a value-receiver
-   Marshaler passed directly (MarshalValue is called through it: a panic) and the typed nil pointer
-   to a data.Value type passed directly (returned as it is) *)
+(* a nil pointer at the end of any chain is null -- also the typed nil pointer to a value-receiver Marshaler
+   (after REPAIR C20-nil-marshaler) -- except the typed nil pointer to a data.Value type passed directly
+   (returned as it is) *)
 Theorem conv_nil_chain lc hi k m n :
   conv lc hi CSlot (ptrs k (GPtr None)) n = Ok (VNull, n) /\
+  conv lc hi CSlot (ptrs k (GNilPtrTo true)) n = Ok (VNull, n) /\
   conv lc hi CSlot (ptrs (S k) (GNilPtrTo m)) n = Ok (VNull, n) /\
-  conv lc hi CSlot (GNilPtrTo true) n = Err e_nil_receiver /\
   conv lc hi CSlot (GNilPtrTo false) n = OutOfModel.
 Proof.
   repeat split.
+  - destruct k as [|[|k]]; [reflexivity | reflexivity | rewrite conv_ptr_chain; reflexivity].
   - destruct k as [|[|k]]; [reflexivity | reflexivity | rewrite conv_ptr_chain; reflexivity].
   - destruct k as [|k]; [destruct m; reflexivity | rewrite conv_ptr_chain; destruct m; reflexivity].
 Qed.
